@@ -287,3 +287,37 @@ func (f *File) Fd() uintptr { return ^uintptr(0) }
 func (f *File) Core() *core.File { return f.cf() }
 
 var _ = syscall.EIO
+
+// ---- rarely used functions, present so that a changed tree still compiles
+
+func UserHomeDir() (string, error)                  { return "/home/sim", nil }
+func UserCacheDir() (string, error)                 { return "/home/sim/.cache", nil }
+func UserConfigDir() (string, error)                { return "/home/sim/.config", nil }
+func Hostname() (string, error)                     { return "simhost", nil }
+func Getuid() int                                   { return 1000 }
+func Geteuid() int                                  { return 1000 }
+func Getgid() int                                   { return 1000 }
+func Getppid() int                                  { return 1 }
+func Environ() []string                             { return nil }
+func Setenv(key, value string) error                { return nil }
+func Unsetenv(key string) error                     { return nil }
+func Expand(s string, m func(string) string) string { return os.Expand(s, m) }
+func ExpandEnv(s string) string                     { return os.Expand(s, func(string) string { return "" }) }
+func Executable() (string, error)                   { return "/bin/sim", nil }
+func Chown(name string, uid, gid int) error         { _, err := Stat(name); return err }
+func Lchown(name string, uid, gid int) error        { _, err := Stat(name); return err }
+func Chdir(dir string) error                        { _, err := Stat(dir); return err }
+func Symlink(oldname, newname string) error {
+	return &LinkError{Op: "symlink", Old: oldname, New: newname, Err: syscall.EPERM}
+}
+func Link(oldname, newname string) error {
+	return &LinkError{Op: "link", Old: oldname, New: newname, Err: syscall.EPERM}
+}
+func Readlink(name string) (string, error) {
+	return "", &PathError{Op: "readlink", Path: name, Err: syscall.EINVAL}
+}
+
+func (f *File) Chown(uid, gid int) error             { return nil }
+func (f *File) SetDeadline(t interface{}) error      { return nil }
+func (f *File) SetReadDeadline(t interface{}) error  { return nil }
+func (f *File) SetWriteDeadline(t interface{}) error { return nil }
